@@ -23,6 +23,12 @@ add("C11", "Theorems (all k in 0..12, all addresses below 2^60, all tags and tim
 add("C12", "Theorems about the Gallina image of State, Modular and the reclaim/merge expressions of dispose_general_node regenerated from src/utils.rs on every run: field independence of every updater for all in-range words, soundness of the wrap-around test for every age >= -2 and every epoch < 2^62 against the generated threshold, completeness on the unambiguous window, exactness/conservativeness of the merged stamp. Translator cross-checked by ~600k differential lines incl. an exhaustive residue sweep; property also evaluated on the implementation directly.",
     "tools/rs2v.py trusted (cross-checked). Wrapping (release) semantics for unsigned arithmetic with explicit range hypotheses; isize arithmetic assumed not to overflow (epochs < 2^62).",
     "Coq proof over translator-generated model + differential check")
+add("C13", "Theorems about the hand-written model Ebr.v of the EBR core, for every number of participants, every program (incl. deferred functions whose bodies pin/flush/defer) and every schedule of its one-access steps: an inductive invariant of the micro-step relation (announcement bounds, scan clauses of in-flight try_advance calls, stamps of bags in every place) from which C13_grace follows: whenever a deferred function runs, no critical section recorded as active when it was deferred is still active (witness sets are recorded by the model at defer time and characterised by witnesses_iff). Needs 2 <= EXPIRE_AFTER of the generated constants. Tied to the code by exact step-by-step replay of the real collector under the cooperative scheduler (sites 10..23) plus a model-independent trace monitor for the same property.",
+    "Model hand-written; tie sampled. SC only. Queue/registry atomic (C17/C18). Critical section = outermost user guard; guards created inside a deferred function that runs during collection are an excluded class (finding D8). Defensive guards of the model are validated by the correspondence only.",
+    "Coq proof (inductive invariant over all schedules) over hand-written model + schedule-driven correspondence")
+add("C14", "Theorems about Ebr.v for all programs and schedules: the global epoch never decreases and moves by at most one per transition (C14_monotone), every validated-pinned participant has ann <= G <= ann+1 at every micro-step, also across repin_without_collect (C14_skew), and the announcement of a participant inside a critical section never changes (C14_ann_stable); plus machine-level lemmas about the generated image of epoch.rs (successor/pinned/unpinned/value/wrapping_sub/is_expired agree with +1, the flag and subtraction below 2^62). Tied to the code by exact replay (sites 10..23), a trace monitor (observed epochs monotone; within one of every pinned thread) and the pure differential stream for Epoch.",
+    "Model hand-written (Ebr.v) / generated (EpochW.v); tie sampled. SC only: the Relaxed loads/stores and the x86 lock-cmpxchg-as-fence of pin are outside the model.",
+    "Coq proof (inductive invariant over all schedules) over hand-written model + schedule-driven correspondence")
 add("C17", "Theorems about the hand-written model Queue.v of the Michael-Scott queue at one-shared-access granularity, for all programs and schedules: structural invariant (write-once next, finite duplicate-free chain, head/tail on it), linearisation points (successful CAS on tail_node.next appends exactly that value; successful CAS on head removes the first element and is what the operation later returns), FIFO (pushed = popped ++ queue, each node removed at most once), try_pop_if removes the very element its predicate was evaluated on, and a None answer implies the queue was empty or its then-first element failed the predicate at an instant inside the call. Tied to the real queue (sites 30..44) by exact step-by-step replay.",
     "Model hand-written; tie sampled. SC only. Nodes not reused inside a case (justified by C13). No spurious CAS failure.",
     "Coq proof (invariant + history variables) over hand-written model + schedule-driven correspondence")
@@ -57,8 +63,6 @@ PENDING = {
     "C06": "needs M3 with links; not yet registered",
     "C07": "needs M3 with links; not yet registered",
     "C10": "model M3 under construction; not yet registered",
-    "C13": "model M2 (Ebr.v) exists and corresponds to the code; proofs under construction",
-    "C14": "model M2 (Ebr.v) exists and corresponds to the code; proofs under construction",
     "C15": "model M2 (Ebr.v) exists; proofs under construction",
     "C16": "sequential guard model under construction",
     "C20": "sequential guard/TLS model under construction",
